@@ -30,10 +30,10 @@ from runner import Exploration, Finding
 
 SPEC = {
     "prop": "C10",
-    "lean_targets": ["InfernoVerif.Props.C10", "InfernoVerif.Props.C10GlueProg", "InfernoVerif.Drv.Proto"],
+    "lean_targets": ["InfernoVerif.Props.C10", "InfernoVerif.Props.C10GlueProg", "InfernoVerif.Props.C10Run", "InfernoVerif.Drv.Proto"],
     "translate": ["UpdaterProg"],
     "driver_targets": ["InfernoVerif.Model.Updater", "InfernoVerif.Drv.Proto"],
-    "prop_files": ["InfernoVerif/Props/C10.lean", "InfernoVerif/Props/C10GlueProg.lean"],
+    "prop_files": ["InfernoVerif/Props/C10.lean", "InfernoVerif/Props/C10GlueProg.lean", "InfernoVerif/Props/C10Run.lean"],
     "lemma_files": ["InfernoVerif/Lemmas/Updater.lean"],
     "model_files": ["InfernoVerif/Model/Updater.lean"],
     "driver": "drivers/C10.lean",
